@@ -289,6 +289,13 @@ class Check:
         wall = time.time() - self.t0
         nob = len(self.obligations)
         ndis = sum(1 for o in self.obligations if o[1])
+        # calculators built through harness/vm.py are guarded: a library call that wrote into the caller's arrays
+        import sys as _sys
+        _vm = _sys.modules.get("harness.vm")
+        if _vm is not None and _vm.INPUT_MUTATIONS:
+            muts = sorted(set(map(str, _vm.INPUT_MUTATIONS)))
+            self.violation("a calculator call modified the caller's input arrays in place: %s" % ", ".join(muts),
+                           {"calls": muts, "count": len(_vm.INPUT_MUTATIONS)}, key="input-arrays-mutated")
         # a broken proof / correspondence with no concrete failing input is still a violation
         if hasattr(self, "broken_proof") and not self.violations:
             self.violation("proof obligation no longer checks: " + self.broken_proof.split("\n")[0],
